@@ -97,7 +97,7 @@ impl<T: Clone> BorderHoriz<T> {
     {
         use self::BorderSegHoriz::*;
         while width > self.segments.len()
-            invariant //@w[
+            invariant //@w[ @C05 #stretch_to_loop_invariant
                 self.segments@.len() >= old(self).segments@.len(),
                 self.segments@.len() <= maxi(old(self).segments@.len() as int, width as int),
                 forall|i: int| 0 <= i < self.segments@.len() ==> #[trigger] self.segments@[i] == at(old(self).segments@, i),
@@ -169,7 +169,7 @@ impl<T: Clone> BorderHoriz<T> {
     {
         use self::BorderSegHoriz::*;
         for idx in 0..other.segments.len()
-            invariant //@w[
+            invariant //@w[ @C05 #merge_from_below_loop_invariant
                 pos + other.segments@.len() < usize::MAX,
                 self.segments@.len() >= old(self).segments@.len(),
                 self.segments@.len() <= maxi(old(self).segments@.len() as int, pos + idx),
@@ -207,7 +207,7 @@ impl<T: Clone> BorderHoriz<T> {
     {
         use self::BorderSegHoriz::*;
         for idx in 0..other.segments.len()
-            invariant //@w[
+            invariant //@w[ @C05 #merge_from_above_loop_invariant
                 pos + other.segments@.len() < usize::MAX,
                 self.segments@.len() >= old(self).segments@.len(),
                 self.segments@.len() <= maxi(old(self).segments@.len() as int, pos + idx),
